@@ -120,15 +120,26 @@ theorem rangeElem_not_array (oid eo sz : Nat) (h : Scalars.rangeElem oid = some 
     | (cases h; rfl)
     | cases h
 
+/-- the bounds of a numrange are read with the numeric decoder only (types.go:decodeNumericRange, fix scalars/15) -/
+theorem numBound_congr (e1 e2 : Scalars.Ext) (h : SameButArrays e1 e2) (data : Bytes) (off : Nat) :
+    Scalars.numBound e1 data off = Scalars.numBound e2 data off := by
+  unfold Scalars.numBound
+  rw [h.num]
+
+theorem decodeNumericRange_congr (e1 e2 : Scalars.Ext) (h : SameButArrays e1 e2) (data : Bytes) (flags : Nat) :
+    Scalars.decodeNumericRange e1 data flags = Scalars.decodeNumericRange e2 data flags := by
+  unfold Scalars.decodeNumericRange
+  simp only [numBound_congr e1 e2 h]
+
 theorem decodeRange_congr (e1 e2 : Scalars.Ext) (h : SameButArrays e1 e2) (data : Bytes) (oid : Nat) :
     Scalars.decodeRange e1 data oid = Scalars.decodeRange e2 data oid := by
   unfold Scalars.decodeRange
   cases hre : Scalars.rangeElem oid with
-  | none => rfl
+  | none => simp only [decodeNumericRange_congr e1 e2 h]
   | some p =>
     obtain ⟨eo, sz⟩ := p
     have hl := rangeElem_not_array oid eo sz hre
-    simp only [Scalars.decodeRangeFixed, Scalars.rangeLower, Scalars.rangeUpper,
+    simp only [Scalars.decodeRangeFixed, Scalars.rangeLower, Scalars.rangeUpper, decodeNumericRange_congr e1 e2 h,
       fun o => readBound_congr e1 e2 h data o sz eo hl]
 
 theorem decodeType_congr (e1 e2 : Scalars.Ext) (h : SameButArrays e1 e2) (data : Bytes) (oid : Nat)
